@@ -105,8 +105,10 @@ theorem foldl_snSend_st (its : List BufItem) : ∀ g : Gw,
   · split
     · split
       · split
-        · rename_i h; simp [newTopicId_st' h]
-        · rename_i h; simp [newTopicId_st' h]
+        · simp
+        · split
+          · rename_i h; simp [newTopicId_st' h]
+          · rename_i h; simp [newTopicId_st' h]
       · simp
     · split
       · split <;> simp
